@@ -490,7 +490,7 @@ def shard_corpus(arg):
 IDS = ["a", "b", "ａ", "ﬁ", "fi", "ª", "ⅰ", "i", "class", "def", "None", "True", "False", "none",
        "true", "not", "import", "lambda", "async", "await", "print", "self", "caller", "varargs", "kwargs", "loop",
        "_", "__class__", "l_0_a", "l_1_a", "t_1", "environment", "context", "resolve", "undefined", "missing",
-       "ns", "super", "match", "type"]
+       "ns", "super", "match", "type", "٣a", "²"]
 
 SHAPES1 = [
     "{{ P }}", "{{ x.P }}", "{{ P.x }}", "{{ P() }}", "{{ f(P=1) }}", "{{ x|P }}", "{{ x|f(P=1) }}", "{{ x is P }}",
